@@ -144,8 +144,14 @@ class Script:
         if k == "write":
             nch = r.choice([0, 1, 2, 3, 5, 8])
             chunks = [r.choice(CHUNKS) for _ in range(nch)]
-            mode = r.choice(["buffer", "buffer", "fixed"]) if self.lang == "c" else "buffer"
-            return {"chunks": chunks, "mode": mode, "cap": r.choice([0, 1, 2, 4, 16, 64]), "size": r.choice([1, 2, 3, 4, 5, 8, 16, 17, 18, 32, 64])}
+            mode = r.choice(["buffer", "fixed"]) if self.lang == "c" else "buffer"
+            size = r.choice([1, 2, 3, 4, 5, 8, 16, 17, 18, 32, 64])
+            if chunks and r.random() < 0.5:
+                # the boundary of a caller-supplied buffer: the output (or a prefix of whole chunks) fills it exactly, leaves exactly the
+                # terminator's byte, or is one byte too long
+                k = r.randint(1, len(chunks))
+                size = max(1, sum(len(c.encode("utf-8")) for c in chunks[:k]) + r.choice([0, 0, 1, 1, -1]))
+            return {"chunks": chunks, "mode": mode, "cap": r.choice([0, 1, 2, 4, 16, 64]), "size": size}
         raise ValueError(t)
 
     def ret_value(self, t, m, args):
